@@ -234,7 +234,9 @@ fn enum_def(d: &compiler::env::EnumDef) -> Value {
 
 /// the environment a stage's terms are typed in
 fn env_json(c: &Compilation, stage: &str) -> Value {
-    let genv = &c.genv;
+    // after monomorphisation the definitions are the ones the pass left in its own environment (fields of non-generic types
+    // that mention generic instances are rewritten there)
+    let genv = if stage == "core" { &c.genv } else { &c.monoenv.genv };
     let mut structs = Map::new();
     let mut enums = Map::new();
     let mut funcs = Map::new();
